@@ -659,6 +659,7 @@ class Progress(JupyterMixin, RenderHook):
             self.console.show_cursor(False)
             self._enable_redirect_io()
             self.console.push_render_hook(self)
+            self._live_render._shape = None
             try:
                 self.refresh()
             except BaseException:
@@ -692,7 +693,6 @@ class Progress(JupyterMixin, RenderHook):
             self._refresh_thread = None
         if self.transient:
             self.console.control(self._live_render.restore_cursor())
-        self._live_render._shape = None
         if self.ipy_widget is not None and self.transient:  # pragma: no cover
             self.ipy_widget.clear_output()
             self.ipy_widget.close()
